@@ -176,6 +176,10 @@ DOMNode *DOMParentNode::insertBefore(DOMNode *newChild, DOMNode *refChild) {
         throw DOMException(DOMException::WRONG_DOCUMENT_ERR, 0, GetDOMParentNodeMemoryManager);
 
     // Prevent cycles in the tree
+    // a node can never be its own child
+    if(newChild==getContainingNode())
+        throw DOMException(DOMException::HIERARCHY_REQUEST_ERR,0, GetDOMParentNodeMemoryManager);
+
     //only need to do this if the node has children
     if(newChild->hasChildNodes()) {
         bool treeSafe=true;
